@@ -1,35 +1,23 @@
-(* CompilePres.v — any predicate on scopes that is kept by ScopeSpace.__setitem__ (set_var / set_node), by counter updates and by
-   reserving a name that is not taken, is kept by the whole of compile (every fuel, nesting depth, mix of operators, subgraphs,
-   functions and inlined models).  Instantiated in ScopeFacts.v (injective tables) and IOFacts.v (bindings are never changed). *)
+(* CompilePres.v — any predicate on scopes that is kept by Scope.update, by counter updates and by reserving a name that is not
+   taken, is kept by the whole of compile (every fuel, nesting depth, mix of operators, subgraphs, functions and inlined models).
+   Leaf-level corollary: it suffices that ScopeSpace.__setitem__ (set_var / set_node) keep it.  Instantiated in ScopeFacts.v
+   (injective tables) and IOFacts.v (bindings are never changed; a named Var is only ever bound to its name). *)
 From Coq Require Import List String NArith Arith Bool.
 From Spox Require Import Base IR Show Build Sem Plan Named Validate BuildFacts.
 Import ListNotations.
 Open Scope list_scope.
-
-Section Pres.
-Variable Inv : scope -> Prop.
-Hypothesis Hsv : forall s v n s', set_var s v n = inl s' -> Inv s -> Inv s'.
-Hypothesis Hsn : forall s u n s', set_node s u n = inl s' -> Inv s -> Inv s'.
-Hypothesis Hvc : forall s c, Inv s -> Inv (with_vcnt s c).
-Hypothesis Hnc : forall s c, Inv s -> Inv (with_ncnt s c).
-Hypothesis Hres : forall s r, Inv s -> name_taken s r = false -> Inv (with_reserved s (reserved s ++ [r])).
 
 Lemma foldM_inv {A S} (P : S -> Prop) (f : S -> A -> res S) :
   (forall s a s', f s a = inl s' -> P s -> P s') -> forall l s s', foldM f l s = inl s' -> P s -> P s'.
 Proof. intros Hf. induction l as [|a t IH]; intros s s' H Hp; cbn [foldM] in H; [inversion H; subst; assumption|].
   apply bind_ok in H. destruct H as [s1 [H1 H2]]. eapply IH; [exact H2|]. eapply Hf; eauto. Qed.
 
-(* Scope.update: the node under a fresh enumerated name, every output Var under its user name or a fresh generated one *)
-Lemma scope_update_inv p un s u prefix s' : scope_update p un s u prefix = inl s' -> Inv s -> Inv s'.
-Proof.
-  unfold scope_update. destruct (enum (ncnt s) (prefix ++ node_ident p u))%string as [nm nc]. intros H Hs.
-  apply bind_ok in H. destruct H as [s1 [H1 H2]].
-  apply Hsn in H1; [|apply Hnc; exact Hs].
-  revert H2 H1. apply foldM_inv. intros s2 [k fld] s3 Hf Hs2. cbn [fst snd] in Hf.
-  destruct (var_name p un (V u k)) as [n|].
-  - eapply Hsv; [exact Hf|exact Hs2].
-  - destruct (maybe_enum (vcnt s2) (nm ++ "_" ++ fld))%string as [n vc]. eapply Hsv; [exact Hf|apply Hvc; exact Hs2].
-Qed.
+Section Pres.
+Variable Inv : scope -> Prop.
+Variables (p : prog) (un : names).
+Hypothesis scope_update_inv : forall s u prefix s', scope_update p un s u prefix = inl s' -> Inv s -> Inv s'.
+Hypothesis Hvc : forall s c, Inv s -> Inv (with_vcnt s c).
+Hypothesis Hres : forall s r, Inv s -> name_taken s r = false -> Inv (with_reserved s (reserved s ++ [r])).
 
 (* ---------- renaming of an inlined graph only reserves fresh names ---------- *)
 Lemma reserve_free_inv fuel base : forall r sc r' sc', reserve_free fuel base r sc = inl (r', sc') -> Inv sc -> Inv sc'.
@@ -112,7 +100,7 @@ Proof.
     eapply rsame_trans; [eapply (mapS_same rv (rename_val_same nm u operands in_names out_names)); exact H2|].
     eapply rsame_trans; [|eapply rsame_trans; [eapply (mapS_same rv (rename_val_same nm u operands in_names out_names)); exact H4|
                                               eapply (mapS_same rv (rename_val_same nm u operands in_names out_names)); exact H5]].
-    clear - HF H3 Hsv Hsn Hvc Hnc Hres. revert s2 r3 s3 H3. induction b as [|n t IH]; intros s2 r3 s3 H3.
+    clear - HF H3 scope_update_inv Hvc Hres. revert s2 r3 s3 H3. induction b as [|n t IH]; intros s2 r3 s3 H3.
     + inversion H3; subst. apply rsame_refl.
     + inversion HF as [|x l Hn Ht]; subst. apply bind_ok in H3. destruct H3 as [[rn sn] [Hn1 H3]].
       apply bind_ok in H3. destruct H3 as [[rt st2] [Ht1 H3]]. inversion H3; subst. cbn [snd] in *.
@@ -123,7 +111,7 @@ Proof.
     eapply rsame_trans; [eapply rename_node_same; exact H1|].
     eapply rsame_trans; [eapply (mapS_same rv (rename_val_same nm u operands in_names out_names)); exact H2|].
     eapply rsame_trans; [eapply (mapS_same rv (rename_val_same nm u operands in_names out_names)); exact H3|].
-    clear - HF H4 Hsv Hsn Hvc Hnc Hres. revert s3 r4 st' H4. induction al as [|[k [g|]] t IH]; intros s3 r4 s4 H4.
+    clear - HF H4 scope_update_inv Hvc Hres. revert s3 r4 st' H4. induction al as [|[k [g|]] t IH]; intros s3 r4 s4 H4.
     + inversion H4; subst. apply rsame_refl.
     + inversion HF as [|x l Hg Ht]; subst. cbn [snd] in Hg. apply bind_ok in H4. destruct H4 as [[rg sg] [Hg1 H4]].
       apply bind_ok in H4. destruct H4 as [[rt st2] [Ht1 H4]]. inversion H4; subst. cbn [snd] in *.
@@ -139,7 +127,7 @@ Proof.
   eapply rsame_trans; [eapply rename_node_same; exact H1|].
   eapply rsame_trans; [eapply (mapS_same rv (rename_val_same nm u operands in_names out_names)); exact H2|].
   eapply rsame_trans; [eapply (mapS_same rv (rename_val_same nm u operands in_names out_names)); exact H3|].
-  clear - H4 Hsv Hsn Hvc Hnc Hres. revert s3 r4 st' H4. induction al as [|[k [g|]] t IH]; intros s3 r4 s4 H4.
+  clear - H4 scope_update_inv Hvc Hres. revert s3 r4 st' H4. induction al as [|[k [g|]] t IH]; intros s3 r4 s4 H4.
   - inversion H4; subst. apply rsame_refl.
   - apply bind_ok in H4. destruct H4 as [[rg sg] [Hg1 H4]].
     apply bind_ok in H4. destruct H4 as [[rt st2] [Ht1 H4]]. inversion H4; subst. cbn [snd] in *.
@@ -161,7 +149,7 @@ Proof. induction body as [|n t IH]; intros st r st' H.
     eapply rsame_trans; [eapply rename_onode_same; exact Hn|eapply IH; exact Ht]. Qed.
 
 Section CompileInv.
-Variables (p : prog) (un : names) (args_of : nat -> list var) (own_of : nat -> list nref)
+Variables (args_of : nat -> list var) (own_of : nat -> list nref)
           (fbuild : nat -> nat -> res (list mnode * req * list fdesc)).
 Notation compile := (compile p un args_of own_of fbuild).
 
@@ -239,3 +227,34 @@ Proof.
 Qed.
 End CompileInv.
 End Pres.
+
+(* ---------- leaf level: ScopeSpace.__setitem__ ---------- *)
+Section Leaf.
+Variable Inv : scope -> Prop.
+Hypothesis Hsv : forall s v n s', set_var s v n = inl s' -> Inv s -> Inv s'.
+Hypothesis Hsn : forall s u n s', set_node s u n = inl s' -> Inv s -> Inv s'.
+Hypothesis Hvc : forall s c, Inv s -> Inv (with_vcnt s c).
+Hypothesis Hnc : forall s c, Inv s -> Inv (with_ncnt s c).
+Hypothesis Hres : forall s r, Inv s -> name_taken s r = false -> Inv (with_reserved s (reserved s ++ [r])).
+
+(* Scope.update: the node under a fresh enumerated name, every output Var under its user name or a fresh generated one *)
+Lemma scope_update_inv_leaf p un s u prefix s' : scope_update p un s u prefix = inl s' -> Inv s -> Inv s'.
+Proof.
+  unfold scope_update. destruct (enum (ncnt s) (prefix ++ node_ident p u))%string as [nm nc]. intros H Hs.
+  apply bind_ok in H. destruct H as [s1 [H1 H2]].
+  apply Hsn in H1; [|apply Hnc; exact Hs].
+  revert H2 H1. apply foldM_inv. intros s2 [k fld] s3 Hf Hs2. cbn [fst snd] in Hf.
+  destruct (var_name p un (V u k)) as [n|].
+  - eapply Hsv; [exact Hf|exact Hs2].
+  - destruct (maybe_enum (vcnt s2) (nm ++ "_" ++ fld))%string as [n vc]. eapply Hsv; [exact Hf|apply Hvc; exact Hs2].
+Qed.
+
+Theorem compile_inv_leaf p un args_of own_of fbuild : forall fuel s g prefix is_main mg s' rq fs,
+  compile p un args_of own_of fbuild fuel s g prefix is_main = inl (mg, s', rq, fs) -> Inv s -> Inv s'.
+Proof. apply (compile_inv Inv p un (scope_update_inv_leaf p un) Hvc Hres). Qed.
+
+Lemma own_fold_inv_leaf p un fbuild rec prefix :
+  (forall s g pre vi mg s' rq fs, rec s g pre vi = inl (mg, s', rq, fs) -> Inv s -> Inv s') ->
+  forall l acc acc', foldM (compile_step p un fbuild rec prefix) l acc = inl acc' -> acc_inv Inv acc -> acc_inv Inv acc'.
+Proof. apply (own_fold_inv Inv p un (scope_update_inv_leaf p un) Hvc Hres). Qed.
+End Leaf.
